@@ -81,6 +81,23 @@ pub fn run_match(args: &[&str]) -> String {
     )
 }
 
+/// MATCHU rt rc qt qc: like MATCH with the question type built directly as QTYPE::TYPE(TYPE::from(qt)), whatever qt is (this is what
+/// `TYPE::from(code).into()` gives a caller, also for the codes that QTYPE::try_from would read as ANY / AXFR / MAILB ...)
+pub fn run_matchu(args: &[&str]) -> String {
+    let v: Vec<Option<u128>> = args.iter().map(|a| hex_to_u128(a)).collect();
+    if v.len() != 4 || v.iter().any(|x| x.map_or(true, |x| x >= 65536)) {
+        return "BADCASE".into();
+    }
+    let (rt, rc, qt, qc) = (v[0].unwrap() as u16, v[1].unwrap() as u16, v[2].unwrap() as u16, v[3].unwrap() as u16);
+    let (class, qclass) = match (CLASS::try_from(rc), QCLASS::try_from(qc)) {
+        (Ok(a), Ok(b)) => (a, b),
+        _ => return "BADCASE".into(),
+    };
+    let qtype: QTYPE = TYPE::from(qt).into();
+    let rr = ResourceRecord::new(Name::new_unchecked("a"), class, 0, RData::Empty(TYPE::from(rt)));
+    format!("{} {} {}", ty_tok(rr.rdata.type_code()), b01(rr.match_qtype(qtype)), b01(rr.match_qclass(qclass)))
+}
+
 pub fn run_matchn(args: &[&str]) -> String {
     let v: Vec<Option<u128>> = args.iter().map(|a| hex_to_u128(a)).collect();
     if v.len() != 4 || v.iter().any(|x| x.map_or(true, |x| x >= 65536)) {
